@@ -257,7 +257,9 @@ pub fn gen(rng: &mut Rng, sc: &mut Scope, target: W, depth: u32) -> GExpr {
                 opts.push((c, gen(rng, sc, aw, d)));
             }
             let last_w = if have_sized && rng.chance(1, 2) { W::Unl } else { target };
-            opts.push((GExpr::Const(1, W::Unl, 0), gen(rng, sc, last_w, d)));
+            // the default arm is written `1`, or with one of the preamble's names for it
+            let dflt = match rng.below(5) { 0 => GExpr::Name("true".into()), 1 => GExpr::Name("TRUE".into()), _ => GExpr::Const(1, W::Unl, 0) };
+            opts.push((dflt, gen(rng, sc, last_w, d)));
             GExpr::Mux(opts)
         }
         _ => leaf(rng, sc, target),
